@@ -6,6 +6,7 @@ CONSTANTS
   SmallShrCount = 12
   Range <- RangeSmall
   ClassSet <- ClassesCore
+  AliasSet <- ClassesAlias
   CoreSet <- CoreSmall
 INVARIANT Laws
 CHECK_DEADLOCK FALSE
